@@ -4,9 +4,9 @@ from __future__ import annotations
 
 from . import _checks as K
 from ._adapters import ADAPTERS
-from ._layouts import translate  # noqa: F401  (T1)
+from ._layoutsw import translate  # noqa: F401  (T1: Gen/Layouts and Gen/LayoutsW)
 
-MODULES = ["Iodata.Props.C15"]
+MODULES = ["Iodata.Props.C15", "Iodata.Props.C15W"]
 RULE = (
     "same object generators as C02 (sizes around every width boundary, all elements, magnitude classes, titles, bonds, "
     "optional attributes; Cube shapes with every row%6, FCHK objects with every optional section). dump/load/dump-gen2:<fmt> "
@@ -26,6 +26,7 @@ ASSUMPTIONS = [
     "quantised objects",
 ]
 TIME_LIMIT = {"quick": 1200, "thorough": 7200}
+from . import _w as _W; RULE, TRUSTED, ASSUMPTIONS = RULE + _W.RULE, TRUSTED + _W.TRUSTED, ASSUMPTIONS + _W.ASSUMPTIONS  # noqa: E402, E702
 
 RW = ["xyz", "sdf", "pdb"]
 
@@ -42,6 +43,7 @@ def correspond(ctx):
     K.corr_roundtrip(ctx, MOL2, ctx.n(160, 800), generations=2)
 
     K.corr_roundtrip(ctx, CUBE, ctx.n(200, 1000), generations=2)
+    from . import _w; _w.correspond(ctx)  # second group of formats (FCIDUMP text, POSCAR text, FCHK objects, WFN/WFX, QCSchema)
 
 
 def search(ctx):
@@ -56,7 +58,8 @@ def search(ctx):
 
     K.search_c15(ctx, FCHK_FREE, ctx.n(150, 800) * mult)
     K.corpus_cycles(ctx)
+    from . import _w; _w.search(ctx)  # second group of formats (FCIDUMP text, POSCAR text, FCHK objects, WFN/WFX, QCSchema)
 
 
 def replay(ctx, obj):
-    return K.replay_generic(ctx, obj)
+    from . import _w; return _w.replay_or(ctx, obj, K.replay_generic)
